@@ -15,6 +15,7 @@ from . import core
 PROP = 'C20'
 LEVEL = 'exploration'
 STEP_UNIT = 'HTTP-like requests rendered by the real tree tag'
+CHUNK = 16      # consecutive runs per forked child (core.worker)
 CASE_TIMEOUT = 120
 TIERS = {'quick': (40000, 150), 'thorough': (1500000, 1800)}
 PROBES = ['state_compressed_gt57', 'cookie_b64_gt76', 'token_compressed_gt57',
